@@ -614,6 +614,214 @@ def rule_n(ctx: Ctx, env: EnvA):
     ctx.ob("C01.n", "MDCPDPEnv._step:current_depot", okd, sl.where, whyd, construct="MDCPDPEnv._step:current-depot")
 
 
+class _ColEval:
+    """Three-valued value of a boolean mask at ONE column class, followed through column-slice stores, slice reads and
+    scatter / gather on a designated index (the current depot).  Columns are split at symbolic boundaries b1 < b2 (number of
+    depots, pickup/delivery split); classes: 'odepot', 'cdepot' in [0, b1), 'pickup' in [b1, b2), 'delivery' in [b2, end)."""
+
+    SPAN = {"odepot": (0, 1), "cdepot": (0, 1), "pickup": (1, 2), "delivery": (2, 3)}
+
+    def __init__(self, b1: vg.S, cur_idx_ids, assume):
+        self.b1 = nf.poly(b1)
+        self.cur = cur_idx_ids
+        self.assume = assume
+        self.unknown = []
+        self.free = {}          # node id -> value: comparisons the flag table does not know, enumerated by the caller
+        self.free_seen = {}
+
+    def _pos(self, x, is_hi):
+        if x is None or vg.is_none(x):
+            return 3 if is_hi else 0
+        if vg.is_const(x, 0) and not is_hi:
+            return 0
+        p = nf.poly(x)
+        if p == self.b1:
+            return 1
+        if any(a.op == "//" for a in p.atoms()):
+            return 2
+        raise AnalysisError(f"MDCPDP mask: column boundary {vg.show(x, 3)} not understood")
+
+    def _covers(self, idx, cls):
+        items = idx.args if idx.op == "tuple" else (idx,)
+        last = items[-1]
+        if not all(x.op == "ellipsis" or (x.op == "slice" and all(vg.is_none(y) for y in x.args)) for x in items[:-1]):
+            raise AnalysisError(f"MDCPDP mask: index {vg.show(idx, 3)} not a last-axis column slice")
+        if last.op != "slice":
+            raise AnalysisError(f"MDCPDP mask: index {vg.show(idx, 3)} not a column slice")
+        lo, hi = self._pos(last.args[0], False), self._pos(last.args[1], True)
+        a, b = self.SPAN[cls]
+        if lo <= a and hi >= b:
+            return True
+        if hi <= a or lo >= b:
+            return False
+        raise AnalysisError(f"MDCPDP mask: slice {vg.show(idx, 3)} cuts through column class {cls}")
+
+    def ev(self, n, cls, depth=0):
+        if depth > 200:
+            return None
+        n = nf.strip(n, True)
+        v = self.assume(n)
+        if v is not None:
+            return v
+        d = depth + 1
+        if n.op == "const" and isinstance(n.args[0], (bool, int)):
+            return bool(n.args[0])
+        if n.op in ("inv", "not"):
+            x = self.ev(n.args[0], cls, d)
+            return None if x is None else (not x)
+        c = nf._connective(n)
+        if c is not None:
+            kind, kids = c
+            vals = [self.ev(k, cls, d) for k in kids]
+            if kind == "and":
+                return False if any(x is False for x in vals) else (True if all(x is True for x in vals) else None)
+            return True if any(x is True for x in vals) else (False if all(x is False for x in vals) else None)
+        if n.op == "store":
+            base, idx, val = n.args
+            return self.ev(val if self._covers(idx, cls) else base, cls, d)
+        if n.op == "sub":
+            if isinstance(n.args[1], vg.S) and (n.args[1].op == "tuple" or n.args[1].op == "slice"):
+                self._covers(n.args[1], cls)       # reading a slice keeps the class (checked for being understood)
+            return self.ev(n.args[0], cls, d)
+        if n.op == "meth" and n.args[1] in ("scatter_", "scatter") and len(n.args) == 5:
+            idx, src = n.args[3], n.args[4]
+            if nf.strip(idx).id in self.cur or idx.id in self.cur:
+                return self.ev(src, cls, d) if cls == "cdepot" else self.ev(n.args[0], cls, d)
+            self.unknown.append(vg.show(n, 3))
+            return None
+        if n.op == "meth" and n.args[1] == "gather" and len(n.args) == 4:
+            idx = n.args[3]
+            if nf.strip(idx).id in self.cur or idx.id in self.cur:
+                return self.ev(n.args[0], "cdepot", d)
+            self.unknown.append(vg.show(n, 3))
+            return None
+        if nf.cmpnf(n) is not None:
+            self.free_seen[n.id] = vg.show(n, 3)
+            if n.id in self.free:
+                return self.free[n.id]
+            return None
+        self.unknown.append(vg.show(n, 3))
+        return None
+
+
+def mdcpdp_mask_classes(ctx: Ctx, env: EnvA, direction: str = "looser"):
+    """C01.p MDCPDP mask by column class (the env has no solution checker: these tests are the only guard).  With
+    a = available, t = to_deliver (for the column), b = back at an already used depot, c = carry has reached the capacity,
+    k = carrying, l = no unvisited depot left, d = done:
+        other depot   : a & t & b & ~l & ~k        current depot : (~b & ~l & ~k) | d
+        pickup        : a & t & ~c & ~b            delivery      : a & t & ~b
+    decided for all 2^7 flag assignments by three-valued evaluation through the column-slice stores."""
+    if env.name != "MDCPDPEnv":
+        return
+    import itertools
+    sl = env.slot("_step")
+    root = sl.cell("action_mask")
+    dep = nf.strip(sl.cell("current_depot"))
+    if nf._fn(dep) != "torch.where":
+        raise AnalysisError("MDCPDPEnv._step: current_depot' is not torch.where(back_flag, ...)")
+    back = nf.strip(dep.args[1], True)
+    cur_ids = {dep.id, sl.cell("current_depot").id}
+    b1 = None
+    for n in vg.walk(root):
+        d_ = nf.dim_of(n)
+        if d_ is not None and "capacity" in vg.cells_of(d_[0]) and d_[1] in (-1, 1):
+            b1 = n
+    if b1 is None:
+        raise AnalysisError("MDCPDPEnv._step: number of depots (capacity.shape[-1]) not found in the mask")
+
+    def make_assume(f):
+        def assume(n):
+            if n.id == back.id:
+                return f["b"]
+            if n.op == "meth" and n.args[1] in ("scatter", "scatter_") and nf.strip(n.args[0]).op == "cell0":
+                key = nf.strip(n.args[0]).args[1]
+                if key == "available":
+                    return f["a"]
+                if key == "to_deliver":
+                    return f["t"]
+            if n.op == "cell0" and n.args[1] in ("available", "to_deliver"):
+                return f["a"] if n.args[1] == "available" else f["t"]
+            c = nf.cmpnf(n)
+            if c is None:
+                return None
+            P, op = c
+            cells = set()
+            for a_ in P.atoms():
+                cells |= vg.cells_of(a_)
+            txt_atoms = P.atoms()
+            if any(nf._fn(a_) == "torch.count_nonzero" or (a_.op == "meth" and a_.args[1] == "count_nonzero") for a_ in txt_atoms):
+                return f["d"] if op == "==0" else ((not f["d"]) if op == "!=0" else None)
+            if any((nf._fn(a_) == "torch.sum" or (a_.op == "meth" and a_.args[1] == "sum")) and "available" in vg.cells_of(a_) for a_ in txt_atoms):
+                return f["l"] if op == "==0" else ((not f["l"]) if op == "!=0" else None)
+            if "current_carry" in cells and "capacity" in cells:
+                pos, neg = nf.sided_cells(P)
+                if "current_carry" in pos and "capacity" in neg and op == ">=0":
+                    return f["c"]
+                if "capacity" in pos and "current_carry" in neg and op == ">0":
+                    return not f["c"]
+                return None
+            if "current_carry" in cells and "capacity" not in cells:
+                pos, neg = nf.sided_cells(P)
+                if "current_carry" in pos and op == ">0" and P.const_term() == 0:
+                    return f["k"]
+                if "current_carry" in neg and op == ">=0" and P.const_term() == 0:
+                    return not f["k"]
+                # carry >= 0 is implied by carry > 0 (and carry < 0 excluded by it); otherwise a free comparison
+                if "current_carry" in pos and op == ">=0" and P.const_term() == 0 and f["k"]:
+                    return True
+                if "current_carry" in neg and op == ">0" and P.const_term() == 0 and f["k"]:
+                    return False
+                return None
+            return None
+        return assume
+
+    REF = {
+        "odepot": lambda f: f["a"] and f["t"] and f["b"] and not f["l"] and not f["k"],
+        "cdepot": lambda f: ((not f["b"]) and not f["l"] and not f["k"]) or f["d"],
+        "pickup": lambda f: f["a"] and f["t"] and not f["c"] and not f["b"],
+        "delivery": lambda f: f["a"] and f["t"] and not f["b"],
+    }
+    names = "atbcklD".lower()
+    names = ["a", "t", "b", "c", "k", "l", "d"]
+    for cls, ref in REF.items():
+        bad, undec, unk = [], 0, []
+        for bits in itertools.product([False, True], repeat=len(names)):
+            f = dict(zip(names, bits))
+            E = _ColEval(b1, cur_ids, make_assume(f))
+            v = E.ev(root, cls)
+            r = bool(ref(f))
+            vals = [v]
+            if v is None and E.free_seen and not E.unknown and len(E.free_seen) <= 3:
+                # comparisons outside the flag table: a free truth value each
+                ids = sorted(E.free_seen)
+                vals = []
+                for fb in itertools.product([False, True], repeat=len(ids)):
+                    E2 = _ColEval(b1, cur_ids, make_assume(f))
+                    E2.free = dict(zip(ids, fb))
+                    vals.append(E2.ev(root, cls))
+            for v in vals:
+                if v is None:
+                    undec += 1
+                    unk = unk or (E.unknown[:2] or list(E.free_seen.values())[:2])
+                elif direction == "looser" and v and not r:
+                    bad.append("".join(k if f[k] else "-" for k in names) + " offered")
+                elif direction == "tighter" and r and not v:
+                    bad.append("".join(k if f[k] else "-" for k in names) + " hidden")
+        if direction == "looser":
+            # C01: nothing is offered that the reference forbids; an undetermined entry cannot be shown to be forbidden
+            ok = not bad and undec == 0
+            ctx.ob("C01.p", f"MDCPDPEnv.mask:{cls}-columns", ok, sl.where,
+                   f"no assignment of (available, to_deliver, back, cap-full, carrying, last-depot, done) out of {2 ** len(names)} opens a column the reference closes"
+                   if ok else (f"{len(bad)} assignment(s) open a column the reference closes, e.g. {bad[:3]}" if bad else f"{undec} assignment(s) undetermined: {unk}"),
+                   construct=f"MDCPDPEnv._step:mask-class:{cls}")
+        else:
+            # C05: nothing the reference allows is hidden (decided entries only; undetermined ones are C01.p's report)
+            ctx.ob("C05.e", f"MDCPDPEnv.mask:{cls}-columns", not bad, sl.where,
+                   f"no assignment closes a column the reference opens ({2 ** len(names) - undec} decided)"
+                   if not bad else f"{len(bad)} assignment(s) close a column the reference opens, e.g. {bad[:3]}",
+                   construct=f"MDCPDPEnv._step:mask-class:{cls}:hidden")
+
+
 def svrp_last_technician(ctx: Ctx, env: EnvA, sl, root):
     """C01.s SVRP: the depot is closed while customers remain if the vehicle is at the depot OR the current technician is the
     last one (index n_tech - 1, n_tech = techs.size(-2)): returning would advance `current_tech` past the last technician."""
@@ -663,6 +871,7 @@ def run(ctx: Ctx):
         rule_k(ctx, env)
         rule_m(ctx, env)
         rule_n(ctx, env)
+        mdcpdp_mask_classes(ctx, env)
         if cname == "SVRPEnv":
             svrp_last_technician(ctx, env, sl, root)
         if cname == "MTVRPEnv":
